@@ -36,6 +36,12 @@ impl<'a> DecoderResult<'a> {
     pub(crate) fn new(work: &'a mut DecoderWork) -> Self {
         Self { work }
     }
+
+    /// Verification hook: the working space this result borrows.
+    #[cfg(feature = "verif-hooks")]
+    pub fn verif_work(&self) -> &DecoderWork {
+        self.work
+    }
 }
 
 // ======================================================================
